@@ -45,6 +45,7 @@ type tmpl struct {
 	memLim   int64 // bytes, 0 = none
 	initCpus string // cpuset.cpus the runtime creates the container with
 	initMems string
+	oomAdj   int64 // Burstable only: oom_score_adj the kubelet derived from the memory request (0 = 999)
 }
 
 type ctrSpec struct {
@@ -298,7 +299,10 @@ func (c *wctr) oomAdj() int64 {
 	case "BestEffort":
 		return 1000
 	}
-	return 500
+	if c.spec.t.oomAdj != 0 {
+		return c.spec.t.oomAdj
+	}
+	return 999 // a small memory request relative to the node capacity
 }
 
 // nri builds the runtime's message for this container (fresh object: the cache keeps and mutates it).
@@ -791,6 +795,8 @@ type snap struct {
 	BL      *balloonspolicy.VerifSnap
 	Export  map[string]map[string]string
 	MemZone map[string]uint64
+	MemCap  map[uint64]int64 // capacity of every non-empty node subset
+	MemAll  uint64           // mask of nodes with memory
 	MemReqs []memReq
 	CPUClass map[string][]int
 }
@@ -862,6 +868,16 @@ func (x *exec) snapshot() *snap {
 		for id := range x.w.byID {
 			if z, ok := a.AssignedZone(id); ok {
 				s.MemZone[id] = uint64(z)
+			}
+		}
+		all := uint64(a.Masks().AvailableNodes())
+		s.MemAll = uint64(a.Masks().NodesWithMem())
+		s.MemCap = map[uint64]int64{}
+		if all < 256 {
+			for m := uint64(1); m <= all; m++ {
+				if m&^all == 0 {
+					s.MemCap[m] = a.ZoneCapacity(libmem.NodeMask(m))
+				}
 			}
 		}
 	}
